@@ -395,7 +395,14 @@ class ClassParser(BaseParser):
                     f"{self.name}: "
                     f"Attempt to delete immutable attribute: [{repr(field.attname)}]"
                 )
-            fdel(_obj_self)
+            # the user's deleter may fail after it has changed the instance: a deletion that raises leaves it as it was
+            before = dict(_obj_self.__dict__)
+            try:
+                fdel(_obj_self)
+            except Exception:
+                _obj_self.__dict__.clear()
+                _obj_self.__dict__.update(before)
+                raise
 
         deleter.__name__ = field.attname
         return deleter
